@@ -186,7 +186,10 @@ static void driver(void *arg)
         if (in->cancel) {
             pause_d(kind, in->cancel_delay);
             int started_before = u->starts;
-            ABT_OK(ABT_thread_cancel(u->th));
+            if (u->is_task)
+                ABT_OK(ABT_task_cancel(u->th));
+            else
+                ABT_OK(ABT_thread_cancel(u->th));
             u->cancel_returned_step = sim_steps();
             if (!started_before)
                 S.cancels_before_run++;
